@@ -1,0 +1,107 @@
+//go:build verif
+
+package evm
+
+// Contracts for the deductive checker in /verif (comment-only; compiled only with -tags verif).
+// C07 "fee floor": the dynamic (EIP-1559) fee checker of the Cosmos route, its pre-London fallback and the priority.
+// Lib specs: /verif/specs/c07, /verif/specs/c07f; keeper accessors (evmk_chainid, GetBaseFee): zz_contracts_c07_verif.go.
+
+/*@
+alias DynFeeExt github.com/haqq-network/haqq/types.ExtensionOptionDynamicFeeTx
+alias AnyT github.com/cosmos/cosmos-sdk/codec/types.Any
+alias Anys []*github.com/cosmos/cosmos-sdk/codec/types.Any
+
+func (DynamicFeeEVMKeeper).GetParams
+    params ek, ctx
+    pure as dfk_params
+
+// ------------------------------------------------------------------ priority (pre-London fallback)
+// the code's fold over the fee coins: price per gas divided by DefaultPriorityReduction (10^6), capped at MaxInt64; a running
+// value of 0 is replaced by the next one, otherwise the smaller one is kept
+ghost func EPrio(fees Coins, gas int, i int) int
+    def ite(i <= 0, 0, ite(EPrio(fees, gas, i-1) == 0 || cap64(goquo(goquo(coins_at(fees, i-1).Amount, gas), 1000000)) < EPrio(fees, gas, i-1),
+            cap64(goquo(goquo(coins_at(fees, i-1).Amount, gas), 1000000)), EPrio(fees, gas, i-1)))
+
+func getTxPriority
+    requires gas: gas > 0 || coins_len(fees) == 0
+    ensures fold: result == EPrio(fees, gas, coins_len(fees))
+    ensures none: coins_len(fees) == 0 ==> result == 0
+    ensures single: coins_len(fees) == 1 ==> result == cap64(goquo(goquo(coins_at(fees, 0).Amount, gas), 1000000))
+    ensures bounds: 0 <= result && result <= 9223372036854775807
+    loop 1 invariant idx: 0 <= #i && #i <= coins_len(fees)
+    loop 1 invariant fold: priority == EPrio(fees, gas, #i) && 0 <= priority && priority <= 9223372036854775807
+
+// ------------------------------------------------------------------ validator minimum gas prices (genesis / pre-London)
+// refused exactly in CheckTx when no minimum gas price is covered: required amount = ceil(minGasPrice x gas) per denomination
+func checkTxFeeWithValidatorMinGasPrices
+    rawslice requiredFees
+    let fee = feetx_fee(tx)
+    let G = feetx_gas(tx)
+    let mgp = ctx_mingasprices(ctx)
+    requires gasfits: G <= 9223372036854775807
+    requires gas: G > 0 || coins_len(fee) == 0
+    ensures refused: (result.2 != nil) == (ctx_ischeck(ctx) && !FeeCovers(mgp, fee, G))
+    ensures accepted: result.2 == nil ==> result.0 == fee && result.1 == EPrio(fee, G, coins_len(fee))
+    ensures failed: result.2 != nil ==> ciszero(result.0) && result.1 == 0
+    loop 1 invariant idx: 0 <= #i && #i <= len(mgp) && len(requiredFees) == len(mgp) && glDec == dec_of(G) && gas == G
+            && minGasPrices == mgp && feeCoins == fee
+    loop 1 invariant req: forall k int :: 0 <= k && k < #i ==> requiredFees[k].Denom == mgp[k].Denom
+            && requiredFees[k].Amount == ceil_fee(mgp[k].Amount, G)
+    loop 1 back use DecMulInt(mgp[#i - 1].Amount, G)
+// ------------------------------------------------------------------ the dynamic fee checker (EIP-1559 for Cosmos transactions)
+// tip cap of the transaction: MaxPriorityPrice of the FIRST dynamic-fee extension option at or after position i, MaxInt64 if none
+ghost func TipFrom(opts Anys, i int) int
+    def ite(i >= len(opts), 9223372036854775807, ite(typeis(any_cached(opts[i]), "*DynFeeExt"),
+            unbox(any_cached(opts[i]), "*DynFeeExt").MaxPriorityPrice, TipFrom(opts, i+1)))
+// f / g (truncated) times g does not exceed f: an effective price at most the fee cap never costs more than the fee carried
+lemma QuoMulLe(f int, g int, p int)
+    requires f >= 0 && g > 0 && p <= goquo(f, g)
+    ensures p * g <= f
+lemma MulMono(a int, b int, g int)
+    requires a <= b && g >= 0
+    ensures a * g <= b * g
+
+func NewDynamicFeeChecker$1
+    let P = dfk_params(k, ctx)
+    let denom = dfk_params(k, ctx).EvmDenom
+    let cfg = chaincfg_eth(dfk_params(k, ctx).ChainConfig, evmk_chainid(k))
+    let london = ctx_height(ctx) != 0 && !evmk_basefee_nil(k, ctx, cfg)
+    let bf = evmk_basefee_val(k, ctx, cfg)
+    let G = feetx_gas(feeTx)
+    let fee = feetx_fee(feeTx)
+    let cap = goquo(feetx_fee(feeTx)[denom], feetx_gas(feeTx))
+    let tip = ite(implements(feeTx, "github.com/cosmos/cosmos-sdk/x/auth/ante.HasExtensionOptionsTx"), TipFrom(tx_extopts(feeTx), 0), 9223372036854775807)
+    let price = imin(tip + bf, cap)
+    let mgp = ctx_mingasprices(ctx)
+    requires keeper: k != nil
+    // from the call site (DeductFeeDecorator.AnteHandle: gas > 0 outside simulation / genesis) and from Tx.ValidateBasic (gas limit
+    // fits int64, fee coins not negative)
+    requires gasfits: G <= 9223372036854775807
+    requires gas: G > 0 || (ctx_height(ctx) == 0 && coins_len(fee) == 0)
+    requires fee_valid: cnonneg(fee)
+    // ---- London active and a base fee: EIP-1559
+    ensures accepted_iff: london ==> ((result.2 == nil) == (tip >= 0 && cap >= bf))
+    ensures below_basefee: london && cap < bf ==> result.2 != nil
+    ensures effective_fee: london && result.2 == nil ==> result.0 == cone(denom, price * G)
+    ensures within_fee: london && result.2 == nil ==> result.0[denom] <= fee[denom]
+    ensures floor: london && result.2 == nil ==> result.0[denom] >= bf * G
+    ensures priority: london && result.2 == nil ==> result.1 == cap64(goquo(price - bf, 1000000)) && result.1 >= 0
+    ensures refused: london && result.2 != nil ==> ciszero(result.0) && result.1 == 0
+    // ---- C07 fee floor (first sentence of the property), Cosmos route: MinGasPriceDecorator (earlier in the chain) lets a
+    // transaction through only when the fee it DECLARES covers gas x MinGasPrice; the fee the route then CHARGES is this
+    // checker's effective fee, which must cover the floor as well - for every network minimum gas price m (18-decimal Dec).
+    // KNOWN FINDING T1: fails when the base fee is below MinGasPrice and the tip cap is small (see REPORT.md); it holds as soon
+    // as the base fee is at least MinGasPrice (second clause).
+    ghostvar m int
+    ensures c07_floor_paid: london && result.2 == nil && m >= 0 && dec_of(fee[denom]) >= m * G ==> dec_of(result.0[denom]) >= m * G
+    ensures c07_floor_paid_if_basefee_covers: london && result.2 == nil && m >= 0 && dec_of(bf) >= m ==> dec_of(result.0[denom]) >= m * G
+    // ---- genesis block / London not active: the validator's minimum gas prices
+    ensures fallback_refused: !london ==> ((result.2 != nil) == (ctx_ischeck(ctx) && !FeeCovers(mgp, fee, G)))
+    ensures fallback_accepted: !london && result.2 == nil ==> result.0 == fee && result.1 == EPrio(fee, G, coins_len(fee))
+    loop 1 invariant idx: 0 <= #i && #i <= len(tx_extopts(feeTx)) && hasExtOptsTx == feeTx
+    loop 1 invariant scan: maxPriorityPrice == 9223372036854775807 && TipFrom(tx_extopts(feeTx), 0) == TipFrom(tx_extopts(feeTx), #i)
+    loop 1 exitassert tip: maxPriorityPrice == TipFrom(tx_extopts(feeTx), 0)
+    use return QuoMulLe(feetx_fee(feeTx)[denom], feetx_gas(feeTx), price)
+    use return MulMono(bf, price, feetx_gas(feeTx))
+    use return MulMono(m, dec_of(bf), feetx_gas(feeTx))
+@*/
